@@ -100,6 +100,21 @@ InfoOK(e, k, cfg, rd, M) ==
                  rows[j].rc = (IF ~cfg.revcomp \/ (cfg.ads1 = <<>> /\ cfg.ads2 = <<>>) THEN <<>>
                                ELSE IF M.isrc THEN <<49>> ELSE <<48>>))
 
+\* ---- --rest-file / --wildcard-file lines of one read (observed: rd.obs.rest, rd.obs.wild: sequences of
+\* <<text, name>> lines that carry this read's id) ----
+AdSeqOf(cfg, id) == LET i == CHOOSE j \in 1..Len(cfg.ads1) : cfg.ads1[j].id = id IN cfg.ads1[i].aseq
+AuxOK(e, k, cfg, rd, M) ==
+  LET ms == M.ms1
+      m == ms[Len(ms)]
+      searched == SearchedInRound(M.s1, ms, Len(ms))
+      rest == AuxRest(m, searched)
+  IN /\ RepK(e.id, "Aux.RestFile", k,
+             IF ms = <<>> \/ rest = <<>> THEN rd.obs.rest = <<>>
+             ELSE rd.obs.rest = << <<rest, M.o1.name>> >>)
+     /\ RepK(e.id, "Aux.WildcardFile", k,
+             IF ms = <<>> THEN rd.obs.wild = <<>>
+             ELSE rd.obs.wild = << <<AuxWild(m, AdSeqOf(cfg, m.ad), searched), M.o1.name>> >>)
+
 \* ---- one read ----
 CheckRead(e, k) ==
   LET cfg == e.cfg
@@ -126,6 +141,7 @@ CheckRead(e, k) ==
              /\ RepK(e.id, "Occurrences", k, ob.occ = (IF M.dest = "none" THEN 0 ELSE 1) /\ ob.occ2 = (IF cfg.paired THEN ob.occ ELSE 0))
              /\ RepK(e.id, "PairSync", k, ~cfg.paired \/ (ob.dest2 = ob.dest /\ ob.pos2 = ob.pos1))
              /\ Has(e, "info") => InfoOK(e, k, cfg, rd, M)
+             /\ Has(e, "aux") => AuxOK(e, k, cfg, rd, M)
 
 \* ---- the reports (C04, C11, C16): sums over the model's reads ----
 RECURSIVE SumTo(_, _)
